@@ -287,7 +287,11 @@ func differ(dia string) schema.Differ {
 
 // diffOnce builds fresh graphs and runs the real differ of the dialect at the given scope
 // (realm | schema | table:<name>), skipping the given kinds.
-func diffOnce(p Pair, dia, scope string, kinds []string, normalized bool) ([]schema.Change, error) {
+//
+// split says how the policy is composed from schema.DiffSkipChanges options in that one call — the policy is
+// the union of all of them: 0 = one option with every kind, 1 = one option per kind, 2 = two options (halves,
+// with the mode option in between).
+func diffOnce(p Pair, dia, scope string, kinds []string, normalized bool, split int) ([]schema.Change, error) {
 	from, err := build(p.From, dia)
 	if err != nil {
 		return nil, err
@@ -306,7 +310,21 @@ func diffOnce(p Pair, dia, scope string, kinds []string, normalized bool) ([]sch
 			}
 			cs[i] = c
 		}
-		opts = append(opts, schema.DiffSkipChanges(cs...))
+		switch {
+		case split == 1 && len(cs) > 1:
+			for _, c := range cs {
+				opts = append(opts, schema.DiffSkipChanges(c))
+			}
+		case split == 2 && len(cs) > 1:
+			opts = append(opts, schema.DiffSkipChanges(cs[:len(cs)/2]...))
+			if normalized {
+				opts = append(opts, schema.DiffNormalized())
+			}
+			opts = append(opts, schema.DiffSkipChanges(cs[len(cs)/2:]...))
+			normalized = false
+		default:
+			opts = append(opts, schema.DiffSkipChanges(cs...))
+		}
 	}
 	if normalized {
 		opts = append(opts, schema.DiffNormalized())
